@@ -350,6 +350,9 @@ def run_constraints(case):
                         if norm.setdefault(key, ss) != ss:
                             consistent = False
                     # documented: a tensor of sufficient dimensionality under consistent constraints is resized, not refused
+                    check(consistent or raised is not None, "edit:accepted-inconsistent",
+                          lambda: f"{what}: edit accepted although {model} | {{{dim}: {size}}} put two different sizes on one axis of a "
+                                  f"{nd_}-d tensor (strict={strict}); documented: RuntimeError, tensor cannot be made valid")
                     check(not (consistent and raised is not None), "edit:refused-valid",
                           lambda: f"{what}: edit refused ({raised!r}) although the tensor (shape {shp}) has sufficient dimensionality and "
                                   f"the constraints {model} | {{{dim}: {size}}} are consistent (strict={strict}, live={case['live']})")
@@ -436,7 +439,7 @@ def constraints_case(draw, tier="quick"):
         k = draw(st.integers(0, 9))
         if k <= 5:
             d = draw(st.integers(-nd - 1, nd))
-            size = draw(st.sampled_from([None, None, 1, 2, 3, 4, 5]))
+            size = draw(st.sampled_from([None, None, 1, 2, 3, 4, 5, 0] if nd >= 2 else [None, None, 1, 2, 3, 4, 5]))
             if draw(st.booleans()) and size is not None and -nd <= d < nd:
                 size = draw(st.sampled_from([shape[d], shape[d], size]))
             ops.append(["reconstrain", d, size])
